@@ -254,6 +254,9 @@ def run(ctx):
     cases = []   # (class, site, src)
     for frame in FRAMES:
         for cls, arm, items, expr in builtin_cases(arms):
+            # quick tier: every built-in case at toplevel, a seeded quarter of them inside a function / closure
+            if frame != "toplevel" and ctx.quick() and ctx.rng.random() >= 0.25:
+                continue
             cases.append((cls + "@" + frame, "builtin/" + arm, wrap(frame, items, expr), frame))
         for name, expr in OPERATORS:
             cases.append(("op/%s@%s" % (name, frame), "op/" + name.split("-")[0], wrap(frame, "", expr), frame))
@@ -262,7 +265,7 @@ def run(ctx):
     # random variation: the failing step nested in a larger expression / after other statements
     rng = ctx.rng
     base = list(cases)
-    for _ in range(ctx.scale(150, 3000)):
+    for _ in range(ctx.scale(100, 3000)):
         cls, site, src, frame = rng.choice(base)
         if frame != "toplevel":
             continue
@@ -277,7 +280,8 @@ def run(ctx):
         cases.append((cls + "+ctx", site, "\n".join(lines[:-1] + [c % expr]) + "\n", "nested"))
     ctx.rule = ("systematic: for every arm of Tables.builtinArms (%d built-in functions and methods, called as its "
                 "gardenName / namespaceFile / receiverType say) one call with a wrong-typed value at each parameter "
-                "position (other positions well-typed, harmless) and one with arity-1 and arity+1; %d failing operator "
+                "position (other positions well-typed, harmless) and one with arity-1 and arity+1 (quick tier: all of them at "
+                "toplevel, a seeded quarter inside a function / closure); %d failing operator "
                 "applications; %d failing control-flow / binding / call / struct / assert steps; each at toplevel, inside "
                 "a function and inside a closure; plus random nestings of the failing step inside a larger expression, "
                 "block or loop. Each case: `run` then `:resume` x %d through reftest-json-session. Non-trivial = the "
@@ -293,6 +297,7 @@ def run(ctx):
     for ix in slow:
         results[ix] = run_session(ctx, d, ix, [cases[ix][2]] + [":resume"] * RESUMES, timeout=180)
     ctx.cov["sessions_rerun_after_timeout"] = len(slow)
+    ctx.log("%d sessions done (%d re-run after a timeout)" % (len(cases), len(slow)))
 
     hist = {"first_is_error": 0, "first_not_error": 0, "by_kind": {}}
     crashed_first = []
@@ -363,7 +368,9 @@ def run(ctx):
     for a in ast:
         body = a[3:] if a and a.startswith("OK ") else "(astx 1)"
         lines.append("resume_run %d 20000 %s" % (RESUMES, body))
+    ctx.log("astx done for %d programs" % len(srcs))
     model = ctx.model_batch(lines, timeout=600)
+    ctx.log("model resume_run done")
     ncmp, nunsup, stale = 0, 0, []
     for ix, mresp in zip(idxs, model):
         cls, site, src, frame = cases[ix]
